@@ -631,11 +631,16 @@ def _index_bounded(ctx, f, at, idx, N):
         if c is None or c['k'] != 'bin' or c['op'] not in ('==', '!=', '<', '<=', '>', '>='):
             return facts
         a, bb = cu.strip_casts(f, f.kid(c, 0)), cu.strip_casts(f, f.kid(c, 1))
+        cop = c['op']
+        if a is not None and bb is not None and cu.const_of(a) is not None and cu.const_of(bb) is None:
+            # `LIMIT == idx`, `LIMIT > idx`: the same test written the other way round
+            a, bb = bb, a
+            cop = {'<': '>', '>': '<', '<=': '>=', '>=': '<='}.get(cop, cop)
         # loops bounded by the array's own counter field (counted-array idiom)
         if a is not None and f.show(a) == key and bb is not None and pol:
             bt = f.show(bb)
             for cname, strict in COUNTER_BOUND.items():
-                if bt.endswith(cname) and c['op'] == ('<' if strict else '<='):
+                if bt.endswith(cname) and cop == ('<' if strict else '<='):
                     rest = frozenset(x for x in facts if not (isinstance(x, tuple) and x[0] == 'ub' and len(x) == 2))
                     return rest | {('ub', N - 1)}
         k = 0
@@ -647,7 +652,7 @@ def _index_bounded(ctx, f, at, idx, N):
         lim = cu.const_of(bb)
         if atxt != key or lim is None:
             return facts
-        op = c['op']
+        op = cop
         ub = None
         # value v of key satisfies after this edge:
         if op == '==' and not pol:
